@@ -711,6 +711,17 @@ func (s *Sim) checkProvider(v *view) {
 	if s.faultMode == world.FailAfter {
 		return
 	}
+	// the stored node of an IP is how unbind, release and resync know where to unassign it from: while the provider
+	// has an IP assigned, the FloatingIP object must name that node
+	for ip, n := range s.provState {
+		if s.reloadDropped[ip] {
+			continue
+		}
+		if st, ok := v.store[ip]; ok && st.Key != "" && st.NodeName != n {
+			s.alarm("C10", "stored-node-differs-from-provider-assignment", fmt.Sprintf(
+				"provider has %s assigned to %s but its FloatingIP object (key %q) names node %q: the next unassign goes to the wrong node", ip, n, st.Key, st.NodeName))
+		}
+	}
 	for ip, prev := range s.prevDump {
 		cur, in := v.dump[ip]
 		if prev.Key == "" || (in && cur.Key == prev.Key) {
